@@ -597,3 +597,24 @@ package types
 //@   uses decinv
 //@   requires d.Int != nil
 //@   ensures r.Int != nil && fresh(r.Int) && val(r) == rceil(val(d), pow10(18)) * pow10(18)
+
+// ---------------------------------------------------------------- staking.go, utils.go
+
+//@ invariant powinv: PowerReduction.i != nil && val(PowerReduction) == 1000000
+
+//@ func TokensToConsensusPower(tokens Int) (r int64)
+//@   props C18 C20 C05
+//@   uses powinv
+//@   requires tokens.i != nil
+//@   panics string when val(tokens) / 1000000 < 0 - 9223372036854775808 || val(tokens) / 1000000 > 9223372036854775807
+//@   ensures r == val(tokens) / 1000000
+//@
+//@ func TokensFromConsensusPower(power int64) (r Int)
+//@   props C18
+//@   uses powinv
+//@   ensures r.i != nil && fresh(r.i) && val(r) == power * 1000000
+//@
+//@ func CopyBytes(bz []byte) (ret []byte)
+//@   props C20
+//@   ensures (bz == nil) == (ret == nil)
+//@   ensures bz != nil ==> fresh(ret) && off(ret) == 0 && len(ret) == len(bz) && (forall i int :: 0 <= i && i < len(bz) ==> ret[i] == bz[i])
